@@ -378,7 +378,7 @@ ROUND7_ADD = {
  "C01": "Combined-mode messages of 1 MiB + 1 .. 3 MiB + 5 bytes (sub large): the block counter of one call crosses 2^14 and 2^15 blocks. giant_messages: 2^32 + 77 bytes encrypted in place (real memory) by the three ChaCha20-Poly1305 variants and both secretboxes - ciphertext windows around 2^32 and at the end against plaintext XOR model keystream at that offset, tag against Poly1305(model one-time key, MAC input of the construction) fed through the library's streaming Poly1305; AES-256-GCM - windows against the model's counter mode at that block; AEGIS-128L/256 and GCM - the ciphertext of the first 1024 bytes equals that of the prefix alone; all: in-place decryption succeeds and restores the sampled plaintext windows.",
  "C02": "box_public_forgery: a ciphertext sealed under a key anyone can compute (HSalsa20 / HChaCha20 of the all-zero shared point or of the public key itself, all-zero key) together with a low-order sender public key (7 encodings, both top-bit settings) must be refused by open_easy / open_detached / NaCl open for every recipient, both ciphers, four masks (5040 cases), and release nothing. giant_inputs: associated data or MAC'ed message of 2^32 + 77 bytes (sparse) for the six AEADs, secretstream pull, onetimeauth_verify and the three HMAC verifiers, and a real 4 GiB ciphertext for the six AEADs (verify-only decryption): the genuine input verifies, a bit flipped at byte 100, 2^32 - 1, 2^32 + 5, 2^32 + 64, the middle and the last byte is rejected.",
  "C03": "giant_requests: single requests of 2^32 + 71 bytes and more for every stream / XOR entry point, sampled windows against the model keystream (block counter beyond 2^26 blocks, byte offsets beyond 32 bits).",
- "C04": "giant_messages: messages of 2^32 + 5 bytes (sparse) through every hash / MAC, one-shot, as pieces of 2^24 + 1 bytes, as a single update call and as an update of 2^32 bytes followed by the rest: all equal, and different from the digest of the first (length mod 2^32) bytes; SipHash against a pointer-based model.",
+ "C04": "giant_messages: messages of 2^32 + 13 bytes (sparse) through every hash / MAC, one-shot, as pieces of 2^24 + 1 bytes, as a single update call and as an update of 2^32 bytes followed by the rest: all equal, and different from the digest of the first (length mod 2^32) bytes; SipHash against a pointer-based model.",
  "C06": "giant_sign: a sparse message of 2^32 + 21 bytes signed by crypto_sign_detached and (2^32 + 22 bytes, pieces of 2^31 + 9 bytes) by the multi-part Ed25519ph API: the two SHA-512 passes of RFC 8032 recomputed with the library's streaming SHA-512, the arithmetic by the reference model (composition validated against the full model on a short message in the same run); verification accepts the signature and rejects the message with one bit flipped at byte 2^32 + 3.",
  "C07": "giant_h2c: the four hash-to-group functions x both hashes over a sparse message of 2^32 + 5..8 bytes: b_0 of expand_message_xmd recomputed with the library's streaming SHA-256 / SHA-512, everything after b_0 by the reference model (composition validated against the full model on a short message in the same run).",
  "C08": "giant_scrypt: crypto_pwhash_scryptsalsa208sha256_ll (N=2, r=1) with 2^32 - 31, 2^32 and 2^32 + 40 bytes of output (sampled blocks T_i = HMAC-SHA-256(P, B || INT(i)) from the reference model, partial last block, nothing written beyond), and with p = 2^25 and 2^25 + 1 (4 GiB between the two PBKDF2 passes) against a composition of the library's streaming HMAC-SHA-256 and the reference BlockMix; the composition is checked against the full reference model at p = 1, 3, 33 in every tier.",
@@ -390,7 +390,7 @@ ROUND7_ADD = {
  "C17": "`sodium_free` after a canary alteration must terminate the process whatever the disposition of SIGSEGV is (ignored, blocked, a handler that returns). giant_allocations (thorough, first round): sodium_malloc of 2^32 - 1, 2^32, 2^32 + 17, 2^32 + page + 1 bytes and sodium_allocarray with exact products above 2^32 (65537 x 65537, 3 x (2^31 - 5), (2^31 + 1) x 2): fill pattern over the whole region, last byte writable, first byte beyond faults, under-write detected by sodium_free, protection changes honoured at the far end.",
  "C18": "builtin_sources: 400 successive 32-bit draws of two children compared word by word (two equal words at the same position = failure); a /dev/urandom that fstat reports as a regular file must not be used (no byte delivered). giant_requests (forked children): randombytes_buf of 2^32 and 2^32 + 100 bytes - an installed source must be asked for exactly that range, sysrandom and the internal generator must leave no all-zero 32-byte window among 4101 sampled ones and write nothing beyond - and randombytes_buf_deterministic of those sizes against the ChaCha20-IETF model in windows around 2^32 and at the end.",
  "C19": "Every thread reads all CPU-feature getters and crypto_aead_aes256gcm_is_available() right after sodium_init returns; the values must equal the final ones (no lazily completed detection), and the getters race under ThreadSanitizer like any other call.",
- "C20": "Foreign strings longer than 128 characters; scrypt parameter sets up to N*r = 2^25.",
+ "C20": "Verification of foreign Argon2 strings longer than 128 characters (48-byte salt, 64..96-byte tag, two lanes); scrypt parameter sets up to 32 MiB of memory.",
 }
 for _k, _v in ROUND7_ADD.items():
     PROPS[_k]["rule"] = PROPS[_k]["rule"] + " " + _v
